@@ -567,6 +567,7 @@ func C10(c *core.Ctx) {
 	self, _ := os.Executable()
 	from, fromEntry := 0, 0
 	restarts := 0
+	retried := map[[2]int]bool{}
 	for {
 		cmd := exec.Command(self, "C10child", "-out", filepath.Join(c.OutDir, "child"))
 		cmd.Env = append(os.Environ(), fmt.Sprintf("C10_FROM=%d:%d", from, fromEntry), "C10_INPUTS="+filepath.Join(c.OutDir, "inputs.txt"))
@@ -636,6 +637,15 @@ func C10(c *core.Ctx) {
 			obs = "oom"
 		case strings.Contains(se, "panic"):
 			obs = "fatal-panic"
+		}
+		if obs == "crash" && !retried[cur] {
+			// the child died without any message (no Go panic, no out-of-memory report, not a hang): killed from
+			// outside (a machine short of memory kills the largest process).  The call is repeated once in a fresh
+			// child before anything is attributed to its input.
+			retried[cur] = true
+			c.Hist("child died without a message: call repeated in a fresh child")
+			from, fromEntry = cur[0], cur[1]
+			continue
 		}
 		results[cur] = result{0, obs}
 		c.Hist("child killed: " + obs)
